@@ -3,6 +3,7 @@ import Rare.Proofs.C12Grammar
 import Rare.Proofs.C12Scan
 import Rare.Proofs.C12Ext
 import Rare.Proofs.C12Amd64
+import Rare.Proofs.C12Utf8
 import Rare.Gen.C12
 /-!
 Property C12 – dissect matching equals its specification; ignore-case only adds matches.
@@ -719,6 +720,21 @@ theorem state_matches_source :
     Gen.C12.intPoolDecls = ["NewIntPool", "IntPool.Get"] := by
   decide
 
+/-- **Tie to the source**: the small functions around the mirrored ones – `NewIntPool` (one array of
+`size` ints: `Pool.new`), `SubexpNameTable` (the compiled map itself), `Compile` (= `CompileEx(expr,
+false)`: `compile`), `MustCompile` (`mustCompile`), and the factory of `pkg/matchers/factory.go`:
+`ToFactory` wraps the compiled pattern and EVERY `CreateInstance` of the wrapper calls the pattern's
+`CreateInstance` – no instance is cached or shared between workers (the `par` op also demands two
+distinct objects from two calls). -/
+theorem aux_code_matches_source :
+    Gen.C12.newIntPoolSkeleton = ["return &IntPool{ size: size, pool: make([]int, size), }"] ∧
+    Gen.C12.nameTableSkeleton = ["return s.groupNames"] ∧
+    Gen.C12.compileFnSkeleton = ["return CompileEx(expr, false)"] ∧
+    Gen.C12.mustCompileSkeleton = ["d, err := Compile(expr)", "if err != nil", "panic(err)", "end", "return d"] ∧
+    Gen.C12.toFactorySkeleton = ["return &factoryWrapper[T]{f}"] ∧
+    Gen.C12.factoryCreateSkeleton = ["return s.matcher.CreateInstance()"] := by
+  decide
+
 /-- **Tie to the TOOLCHAIN's source (regenerated on every run from GOROOT/src of the Go that builds
 `rare`)**: the library code the model mirrors is not part of /repo, so its text is pinned as well –
 `internal/stringslite.Index` statement by statement (the five `switch` arms, the amd64 arm with
@@ -757,6 +773,55 @@ theorem stdlib_index_matches_source :
     Gen.C12.stdPrimeRK = primeRK.toNat ∧ Gen.C12.stdMaxBruteForce = maxBruteForce ∧
     (∀ n, cutoverAmd64 n = (n + 16) / 8) :=
   ⟨rfl, rfl, rfl, rfl, rfl, by decide, by decide, fun _ => rfl⟩
+
+/-- **UTF-8 text is never cut inside a character** ("any literals incl. multi-byte UTF-8"): when the
+line, the leading literal and every delimiter are structurally valid UTF-8 (`Utf8`: each lead byte is
+followed by exactly the continuation bytes it announces – every really valid UTF-8 string is), EVERY
+offset of a result – start and end of `{0}`, start and end of every capture – is a character
+boundary of the line (`Boundary line n`: `line[:n]` and `line[n:]` are both valid), in BOTH modes.  So
+`{name}` and `{0}` are always valid UTF-8 again.  Ignore-case keeps this because its fold changes
+single-byte characters only (the repaired F16 defect folded lead bytes of multi-byte characters). -/
+theorem offsets_on_char_boundaries (ic : Bool) (p : Pat) (hp : p.Shape) (d : Dissect)
+    (hc : compileEx p.render ic = .ok d) (line : Bytes) (r : List Int)
+    (hr : matchAll d [line] = .ok [some r])
+    (hl : Utf8 line) (hpre : Utf8 p.pre) (hlits : ∀ t ∈ p.toks, Utf8 t.lit) :
+    ∀ x ∈ r, ∃ n : Nat, x = (n : Int) ∧ Boundary line n := by
+  rw [dissect_eq_spec ic p hp d hc] at hr
+  simp only [List.map_cons, List.map_nil, Except.ok.injEq, List.cons.injEq, and_true] at hr
+  cases hs : specFor ic p line with
+  | none => rw [hs] at hr; cases hr
+  | some r0 =>
+    rw [hs] at hr
+    simp only [Option.map_some, Option.some.injEq] at hr
+    intro x hx
+    rw [← hr, List.mem_map] at hx
+    obtain ⟨n, hn, rfl⟩ := hx
+    exact ⟨n, rfl, specFor_boundaries hl hpre hlits hs n hn⟩
+
+/-- …and a captured text of valid UTF-8 input is valid UTF-8: for slots `a ≤ b` of a result,
+`line[a:b]` is `Utf8`. -/
+theorem captures_are_utf8 (line : Bytes) (a b : Nat) (hab : a ≤ b) (ha : Boundary line a) (hb : Boundary line b) :
+    Utf8 ((line.drop a).take (b - a)) := by
+  -- `line[:a]` is a valid prefix of the valid `line[:b]`: decode in lock-step, the rest is `line[a:b]`
+  have hpre : line.take a <+: line.take b := by
+    have : line.take a = (line.take b).take a := by rw [List.take_take, Nat.min_eq_left hab]
+    rw [this]; exact List.take_prefix _ _
+  have h := utf8_prefix_rest ha.2.1 hb.2.1 hpre
+  rw [List.length_take, Nat.min_eq_left ha.1, List.drop_take] at h
+  exact h
+
+/-- Just outside the class (kernel-checked): a delimiter that is NOT valid UTF-8 – the lone
+continuation byte `A9` – cuts the character `é` = `C3 A9` in two: `%{a}\xA9` on `é` captures `[0,1]`
+= the lone lead byte `C3`; position 1 is not a boundary.  The line itself is valid. -/
+theorem char_boundary_counterexample :
+    matchAll (compiled false ⟨[], [⟨[97], [169]⟩]⟩) [[195, 169]] = .ok [some [0, 2, 0, 1]] ∧
+    Utf8 [195, 169] ∧ ¬ Utf8 [169] ∧ ¬ Boundary [195, 169] 1 := by
+  refine ⟨?_, utf8_of_chk (by decide), ?_, not_boundary_inside_char⟩
+  · simp only [matchAll_compiled, Except.ok.injEq]; decide
+  · intro h
+    obtain ⟨k, hk⟩ := utf8_head h 169 [] rfl
+    have : leadLen 169 = none := by decide
+    rw [this] at hk; cases hk
 
 /-! ### Non-vacuity: the hypotheses above are satisfiable on concrete, non-trivial values -/
 
@@ -836,5 +901,13 @@ example : matchAll (compiled false histPat)
     .ok ([some [5, 10, 8, 9]] ++ [some [0, 5, 3, 4]]) := by
   simp only [matchAll_compiled, Except.ok.injEq]; decide
 example : histPat.Shape ∧ compileEx histPat.render false = .ok (compiled false histPat) := ⟨by decide, by rfl⟩
+-- `offsets_on_char_boundaries`: the hypotheses hold for `é=%{v}世` on `xÉé=a世b世` (2- and 3-byte characters);
+-- the match `[3,10,6,7]`: every offset is a boundary (3 = after `xÉ`, 6 = after `é=`, 7 = before the first `世`, 10 = after it)
+example : Utf8 [120, 195, 137, 195, 169, 61, 97, 228, 184, 150, 98, 228, 184, 150] ∧ Utf8 [195, 169, 61] ∧ Utf8 [228, 184, 150] :=
+  ⟨utf8_of_chk (by decide), utf8_of_chk (by decide), utf8_of_chk (by decide)⟩
+example : specDissect ⟨[195, 169, 61], [⟨[118], [228, 184, 150]⟩]⟩
+    [120, 195, 137, 195, 169, 61, 97, 228, 184, 150, 98, 228, 184, 150] = some [3, 10, 6, 7] := by decide
+example : Boundary [120, 195, 137, 195, 169, 61, 97, 228, 184, 150, 98, 228, 184, 150] 3 :=
+  ⟨by decide, utf8_of_chk (by decide), utf8_of_chk (by decide)⟩
 
 end Rare.C12
